@@ -287,10 +287,16 @@ func c01fRunHist(args []string) Result {
 func c01fGen(r *rand.Rand, tier string, emit func(string)) {
 	thorough := tier == "thorough"
 	put := func(g EG, classes [][]int) {
-		if c02KnownEdgeless(g, classes) {
-			return
-		}
 		emit("canonf " + g.Tokens() + c02ClassToks(classes))
+	}
+	// a class is a set: sometimes list its vertices in a random order
+	unsort := func(classes [][]int) [][]int {
+		out := c02CopyClasses(classes)
+		for _, b := range out {
+			b := b
+			r.Shuffle(len(b), func(i, j int) { b[i], b[j] = b[j], b[i] })
+		}
+		return out
 	}
 	// boundary: all labelled graphs n <= 4 (5 thorough); n <= 3 with every ordered partition into classes
 	small := 4
@@ -318,6 +324,36 @@ func c01fGen(r *rand.Rand, tier string, emit func(string)) {
 			for k := 0; k < 6; k++ {
 				put(g, parts[r.Intn(len(parts))])
 			}
+		}
+	}
+	// n = 4: every class under a relabelling with every ordered partition (singleton-first classes, edgeless graphs with
+	// classes, class partitions that are not equitable: the three repaired vertex-class defects), blocks sometimes unsorted
+	{
+		parts := c02OrderedPartitions(4)
+		for _, g0 := range c01Classes(4) {
+			g := g0.Relabel(r.Perm(4))
+			for k, p := range parts {
+				if k%3 == 0 {
+					put(g, unsort(p))
+				} else {
+					put(g, p)
+				}
+			}
+		}
+	}
+	// edgeless graphs and single edges with classes, n <= 9
+	for n := 2; n <= 9; n++ {
+		for k := 0; k < 6; k++ {
+			cl := c02RandomClasses(r, n)
+			put(EG{N: n}, cl)
+			put(EG{N: n, E: [][2]int{{0, n - 1}}}, cl)
+			put(EG{N: n}, [][]int{{n - 1}, func() []int {
+				var rest []int
+				for u := 0; u < n-1; u++ {
+					rest = append(rest, u)
+				}
+				return rest
+			}()})
 		}
 	}
 	// all isomorphism classes, relabelled
@@ -359,6 +395,7 @@ func c01fGen(r *rand.Rand, tier string, emit func(string)) {
 					}
 				}
 				put(g, [][]int{rest, {v}})
+				put(g, [][]int{{v}, unsort([][]int{rest})[0]})
 				put(g, c02RandomClasses(r, g.N))
 			}
 		}
@@ -548,9 +585,6 @@ func c01fGenHist(r *rand.Rand, tier string, emit func(string)) {
 			if r.Intn(3) == 0 {
 				cl = c02RandomClasses(r, g.N)
 			}
-			if c02KnownEdgeless(g, cl) {
-				cl = nil
-			}
 			gs, cs = append(gs, g), append(cs, cl)
 			if g.N > N {
 				N = g.N
@@ -583,6 +617,3 @@ func init() {
 	register(&Proto{Name: "histf", Props: []string{"C01", "C02"}, Run: c01fRunHist, Gen: c01fGenHist})
 }
 
-// The three vertex-class defects this predicate used to avoid were repaired in /repo (commits 87e1b96..70aec9a);
-// nothing is avoided any more.
-func c02KnownEdgeless(g EG, classes [][]int) bool { return false }
